@@ -1,7 +1,7 @@
 (* Dispatch table of the extracted model executable: one command per modelled function.
    Model modules are required, not imported: every reference below is qualified. *)
 From FV Require Import Base.Prelude.
-From FV Require Model.FragTranslate Model.FragQuery Model.ScriptBlocks Model.MathFuncs gen.MathTable Cpp.IR Cpp.Exec Model.KindModel Model.Arith Model.LocalDataset Model.WordSubst Model.CppTypesModel Model.ExecState Cpp.EventLocal Model.Inject gen.Templates Cpp.Static Model.Lowering Cpp.FillConsistent Model.TreeSchema Model.CppLex Model.Consts Model.Binding Model.Collections gen.Collections Model.Shell gen.Runner_atlas_r21 gen.Runner_cms_r5 gen.Runner_cms_r7.
+From FV Require Model.Balance Model.FragTranslate Model.FragQuery Model.ScriptBlocks Model.MathFuncs gen.MathTable Cpp.IR Cpp.Exec Model.KindModel Model.Arith Model.LocalDataset Model.WordSubst Model.CppTypesModel Model.ExecState Cpp.EventLocal Model.Inject gen.Templates Cpp.Static Model.Lowering Cpp.FillConsistent Model.TreeSchema Model.CppLex Model.Consts Model.Binding Model.Collections gen.Collections Model.Shell gen.Runner_atlas_r21 gen.Runner_cms_r5 gen.Runner_cms_r7.
 
 Definition dispatch (cmd : string) (arg : sexp) : sexp :=
   if String.eqb cmd "c15.gen" then ScriptBlocks.run_gen arg
@@ -36,6 +36,7 @@ Definition dispatch (cmd : string) (arg : sexp) : sexp :=
   else if String.eqb cmd "c14.slots" then Inject.run_slots Templates.inject_cfg arg
   else if String.eqb cmd "c12.audit" then MathFuncs.audit MathTable.math_env MathTable.documented
   else if String.eqb cmd "c02.check" then Static.run_check arg
+  else if String.eqb cmd "c02.balance" then Balance.run_balance arg
   else if String.eqb cmd "c12.audit" then MathFuncs.audit MathTable.math_env MathTable.documented
   else if String.eqb cmd "c04.recognise" then Lowering.run_recognise arg
   else if String.eqb cmd "c12.audit" then MathFuncs.audit MathTable.math_env MathTable.documented
